@@ -68,3 +68,11 @@ Theorem C13_admission_test_regenerated :
     else SrcFragments.ContBeltStore_gate (TieBelt.glens_of b noacc one).
 Proof. exact TieBelt.gate_regenerated. Qed.
 Print Assumptions C13_admission_test_regenerated.
+
+(* tie B: the stall test of the continuous conveyor, regenerated from ConveyorBelt.is_stalled on every run: the belt counts as
+   stalled exactly when an item waits at the exit, claimed or not (the statement of C13 does not care whether the destination has
+   already reserved the waiting head; fix a6eee90) *)
+Theorem C13_stall_test_regenerated :
+  forall l, SrcFragments.ContBelt_is_stalled l = negb (Z.eqb (SrcFragments.n_ready_items l) 0).
+Proof. exact TieBelt.cont_is_stalled_src. Qed.
+Print Assumptions C13_stall_test_regenerated.
